@@ -71,7 +71,8 @@ def cases(draw, tier):
     kind = draw(st.sampled_from(["bits", "dna"]))
     seq = draw(sequences(tier, 2 if kind == "bits" else 4))
     return {"kind": kind, "seq": "".join(map(str, seq)) if kind == "bits" else "".join(o.NUC[x] for x in seq),
-            "pad": draw(st.sampled_from([0, 0, 1, 3, 17])), "verbose": draw(st.integers(0, 3)) == 0}
+            "pad": draw(st.sampled_from([0, 0, 1, 3, 17])), "verbose": draw(st.integers(0, 3)) == 0,
+            "np_width": draw(st.sampled_from([False, False, True]))}
 
 
 def evaluate(case):
@@ -93,12 +94,15 @@ def evaluate(case):
     if width and value >= base ** width - 4:
         labels.append("near_capacity")
     verbose = {"verbose": True} if (case.get("verbose") and kind == "bits") else {}
-    to_number = (lambda **kw: dsw.bit_to_number(bit_array=list(symbols), **dict(kw, **verbose))) if kind == "bits" else \
+    shared_list = list(symbols)  # one list object handed to every call: it must come back unchanged
+    to_number = (lambda **kw: dsw.bit_to_number(bit_array=shared_list, **dict(kw, **verbose))) if kind == "bits" else \
         (lambda **kw: dsw.dna_to_number(dna_sequence=text, **kw))
     render = (lambda number, n: dsw.number_to_bit(decimal_number=number, bit_length=n)) if kind == "bits" else \
         (lambda number, n: dsw.number_to_dna(decimal_number=number, dna_length=n))
     as_str = lib_call(to_number, is_string=True)
     as_int = lib_call(to_number, is_string=False)
+    if kind == "bits" and shared_list != symbols:
+        return bad("bit_to_number changed the caller's list: %r -> %r" % (symbols[:20], shared_list[:20]), labels)
     if isinstance(as_str, Raised) or isinstance(as_int, Raised):
         return bad("%s -> number raised %r / %r (len %d)" % (kind, as_str, as_int, width), labels)
     if not isinstance(as_str, str) or as_str != o.int_to_dec(value):
@@ -110,9 +114,11 @@ def evaluate(case):
     def expected_render(n):
         ref = ref_symbols(value, n, base)
         return ref if kind == "bits" else "".join(o.NUC[x] for x in ref)
+    import numpy
     for number, name in ((as_str, "str"), (value, "int")):
         for n in sorted({width, width + pad}):
-            got = lib_call(render, number, n)
+            length = numpy.int64(n) if case.get("np_width") else n  # e.g. a length taken from an array of lengths
+            got = lib_call(render, number, length)
             want = expected_render(n)
             if isinstance(got, Raised) or (list(got) if kind == "bits" else got) != want:
                 return bad("number -> %s (%s path, width %d) = %r, big-endian rendering is %r"
